@@ -1,5 +1,6 @@
 """C11 - primitive codecs agree with the specification on their whole bounded domain (DESIGN.md 5/C11)."""
 import itertools
+import zlib
 
 import numpy as np
 
@@ -100,7 +101,7 @@ def run_case(case):
     from vf.ref import encodings as E
     fn = case["fn"]
     counts = COUNTS_QUICK if case["tier"] == "quick" else COUNTS_FULL
-    rng = np.random.default_rng([case["seed"], hash(case["id"]) & 0xFFFF])
+    rng = np.random.default_rng([case["seed"], zlib.crc32(case["id"].encode()) & 0xFFFF])
     fails = []
     feats = set()
     npoints = [0]
